@@ -7,24 +7,29 @@ LEAN_MODULE = "Ctrmml.Properties.C05"
 THEOREMS = ["C05_on_off_sum", "C05_on_time_rule", "C05_on_time_positive_partial", "C05_on_time_zero_counterexample",
             "C05_duration_conservation_partial", "C05_shuffle_underflow_counterexample", "C05_tie_cases", "C05_slur_effect",
             "C05_reverse_rest_effect", "C05_grace_borrows", "C05_shuffle_alternates", "C05_echo_replays", "C05_pitch_rule",
-            "C05_keysig_table_correct"]
+            "C05_keysig_table_correct", "C05_getNum_render", "C05_getNum_is_numSpan", "C05_read_duration_render",
+            "C05_command_span", "C05_command_span_canonical", "C05_parse_render_partial"]
 LEVEL = "proof"
 STREAM = "mml.events+track.api"
 CHUNK = 250
 CASE_SECONDS = 10
-TECHNIQUE = ("Lean 4 proof (invariants over Track API call sequences, UInt16 arithmetic) + "
+TECHNIQUE = ("Lean 4 proof (invariants over Track API call sequences, UInt16 arithmetic; symbolic execution of the reader monad over the rest of the line) + "
              "differential correspondence model<->track.cpp/mml_input.cpp/input.cpp on typed command sequences")
 LEVEL_TEXT = ("Machine-checked theorems over Lean models of Track (track.cpp), Line_Buffer (input.cpp) and MML_Input (mml_input.cpp): on_time+off_time "
               "of every added note is its duration and on_time follows the quantise / early-release rule; total track duration is conserved by every "
               "builder call (ties in their three cases, slurs, rests, echo, reverse rests subtract) under the no-16-bit-wrap hypothesis; pitch rule incl. "
-              "the 15-row key-signature table against the circle of fifths. The reader layer (Line_Buffer / MML_Input) has no general theorem yet: it is carried by "
+              "the 15-row key-signature table against the circle of fifths. Reader layer: get_num is proved equal to a state-free function of the rest of the line on every "
+              "buffer and reads every rendered decimal / $-hexadecimal signed numeral exactly; read_duration on every rendered duration form; every covered command "
+              "(notes with accidental and duration, r ^ l o < > Q q C s &) consumes exactly its canonical spelling and performs exactly its builder call (command_span); "
+              "whole canonical lines of covered commands parse to the builder calls in order with the model's own fuel (parse_render_partial). The other commands rest on "
               "the correspondence check and the spec oracle. on_time >= 1 is FALSE of the "
               "current code (Q4 c:1, D6a) and shuffle underflow breaks conservation (q5 s-30 c, D6b): both are proved as counterexample theorems and "
               "recorded as known findings. The models are tied to the code by regenerated tables and by diffing model and real code on every generated case.")
 LEVEL_NOTE = ("Trusted: Lean kernel (propext, Classical.choice, Quot.sound), the hand-written models Model/Lexer, Model/TrackBuilder, Model/Mml (agreement with the "
-              "C++ is established by differential testing, not proved), Spec/MmlMeaning (my reading of mml_ref.md), glibc strtol in the C locale. The reader "
-              "theorems of the design (getNum_render, read_duration_render, parse_render) are kept as C05_full_statement_* definitions and are NOT proved; text -> builder calls "
-              "is carried by correspondence (all events, references, error messages and positions) and by the spec oracle on the implementation's events.")
+              "C++ is established by differential testing, not proved), Spec/MmlMeaning (my reading of mml_ref.md), glibc strtol in the C locale. The whole-line "
+              "reader theorem is partial: it covers notes, rests, ties, default length, octave, quantise, early release, measure length, shuffle and slur; for R ~ \\ _ k V D % "
+              "and the event commands of mml_control / mml_envelope, text -> builder calls is carried by correspondence (all events, references, error messages and positions) "
+              "and by the spec oracle on the implementation's events.")
 RULE = ("typed command sequences over the documented command set rendered canonically on track A (lengths 1..192 incl. non-divisors, dots 0..3, frames incl. "
         "1/255/256/65535, octaves, all 30 key signatures + modifier lists, Q0..9, q0..200, shuffle +-, decimal/hex/signed numbers) with the AST sent along so that "
         "the spec oracle computes the intended pitches, durations, key-on times and totals; bounded-exhaustive families (all lengths x dots, all key signatures x "
